@@ -40,20 +40,23 @@ def _arr(case):
     return np.array(case['data'], dtype=np.uint8).reshape(case['shape']).astype(case.get('dtype', 'bool'))
 
 
-def _lines(shape, data, thin_got=None, hull_got=None, maxiter=-1):
+EMODES = {'nearest': 0, 'wrap': 1, 'reflect': 2, 'mirror': 3, 'constant': 4, 'ignore': 5}
+
+
+def _lines(shape, data, thin_got=None, hull_got=None, maxiter=-1, emode=None):
     sh = gen.enc_shape(shape)
     d = ','.join(map(str, data)) if len(data) else '-'
     l1 = f'c15 kind=thin shape={sh} data={d} maxiter={maxiter}'
     if thin_got is not None:
         l1 += ' got=' + (','.join(map(str, thin_got)) if len(thin_got) else '-')
-    l2 = f'c15 kind=euler shape={sh} data={d}'
+    l2 = f'c15 kind=euler shape={sh} data={d}' + (f' mode={EMODES[emode]}' if emode else '')
     l3 = f'c15 kind=hull shape={sh} data={d}'
     if hull_got is not None:
         l3 += ' got=' + (','.join(map(str, hull_got)) if len(hull_got) else '-')
     return [l1, l2, l3]
 
 
-def _run_real(A, hull_ok=True, maxiter=None):
+def _run_real(A, hull_ok=True, maxiter=None, emode=None):
     """all real-code observations for one image"""
     import mahotas as mh
     from mahotas.polygon import convexhull, fill_convexhull
@@ -66,6 +69,9 @@ def _run_real(A, hull_ok=True, maxiter=None):
         out['thin2'] = mh.thin(t) if maxiter is None else t
         out['e8'] = mh.euler(A, 8)
         out['e4'] = mh.euler(A, 4)
+        if emode is not None:       # round 4: the `mode` argument (only 'constant', the default, is what the statement speaks about)
+            out['em8'] = mh.euler(A, 8, mode=emode)
+            out['em4'] = mh.euler(A, 4, mode=emode)
         if hull_ok:
             out['hull'] = np.asarray(convexhull(A))
     except Exception as e:              # a documented call that raises is a finding, not an infrastructure error
@@ -114,6 +120,14 @@ def _judge(case, A, real, drv_thin, drv_euler, drv_hull):
                                       components=drv_euler[f'c{n}'], holes=drv_euler['h4' if n == 8 else 'h8'])))
         elif got * den != model:
             f.append(dict(kind='model', key=f'euler-model:n={n}', detail=dict(input=data, got=got, model4=model)))
+        if f'em{n}' in real and f'mm{n}' in drv_euler:
+            gm = float(real[f'em{n}'])
+            if case.get('emode') == 'constant' and gm != got:
+                # the default mode passed explicitly is the same call
+                f.append(dict(kind='property', key=f'euler:n={n}:explicit-constant-mode', detail=dict(input=data, default=got, explicit=gm)))
+            elif gm * den != int(drv_euler[f'mm{n}']):
+                f.append(dict(kind='model', key=f"euler-mode-model:{case.get('emode')}:n={n}",
+                              detail=dict(input=data, got=gm, model4=int(drv_euler[f'mm{n}']))))
     # ---- hull
     if 'hull' in real:
         h = real['hull']
@@ -165,13 +179,13 @@ def _eval_single(cases):
         A0 = _arr(case)
         layout = case.get('layout', 'C')
         A = gen.relayout(A0, layout)
-        real = _run_real(A, hull_ok=(layout != 'readonly'), maxiter=case.get('maxiter'))
+        real = _run_real(A, hull_ok=(layout != 'readonly'), maxiter=case.get('maxiter'), emode=case.get('emode'))
         if 'raised' in real:
             raised.append((case, real))
             continue
         tg = [int(v != 0) for v in real['thin'].ravel().tolist()]
         hg = [int(v) for v in real['hull'].ravel().tolist()] if 'hull' in real else None
-        lines += _lines(case['shape'], case['data'], tg, hg, maxiter=(-1 if case.get('maxiter') is None else case['maxiter']))
+        lines += _lines(case['shape'], case['data'], tg, hg, maxiter=(-1 if case.get('maxiter') is None else case['maxiter']), emode=case.get('emode'))
         pend.append((case, A, real, layout))
     drvs = core.drive(lines)
     byid = {}
@@ -184,6 +198,7 @@ def _eval_single(cases):
                         sig=f"{case['shape']}{case.get('dtype', 'bool')}{layout}{hash(tuple(case['data']))}",
                         tags=dict(dtype=case.get('dtype', 'bool'), layout=layout, kind=case.get('gen', 'corpus'),
                                   max_iter=('default' if case.get('maxiter') is None else str(case['maxiter'])),
+                                  euler_mode=case.get('emode', 'default'),
                                   size=('<=15px' if A.size <= 15 else '<=100px' if A.size <= 100 else '>100px'),
                                   fill=('empty' if not A.any() else 'full' if A.all() else 'mixed'))))
     return [byid[id(c)] for c in cases]
@@ -295,8 +310,53 @@ def _lattice_polygon(rng):
     return A
 
 
+def _degenerate(rng):
+    """round 4: the degenerate inputs of the hull scan (and thin/euler on them): one pixel, two pixels, all pixels collinear
+    (a row, a column, a diagonal, a line of slope 1:2 / 2:1 / 1:3 with gaps), a collinear set plus ONE pixel off the line, exactly
+    three / four pixels (the code returns <= 3 points unscanned), the four corners, two parallel lines"""
+    r, c = rng.randint(1, 14), rng.randint(1, 14)
+    A = np.zeros((r, c), bool)
+    kind = rng.choice(['one', 'two', 'row', 'col', 'diag', 'slope', 'line+1', 'three', 'four', 'corners', 'parallel'])
+    rp = lambda: (rng.randrange(r), rng.randrange(c))
+    if kind == 'one':
+        A[rp()] = True
+    elif kind == 'two':
+        A[rp()] = True; A[rp()] = True
+    elif kind == 'row':
+        y = rng.randrange(r)
+        A[y, :] = [rng.random() < 0.7 for _ in range(c)]; A[y, rng.randrange(c)] = True
+    elif kind == 'col':
+        x = rng.randrange(c)
+        A[:, x] = [rng.random() < 0.7 for _ in range(r)]; A[rng.randrange(r), x] = True
+    elif kind in ('diag', 'slope', 'line+1', 'parallel'):
+        dy, dx = rng.choice([(1, 1), (1, -1)]) if kind == 'diag' else rng.choice([(1, 1), (1, -1), (1, 2), (2, 1), (1, 3), (1, -2), (2, -1), (0, 1), (1, 0)])
+        y, x = (0, 0) if dx >= 0 else (0, c - 1)
+        y, x = y + rng.randrange(max(1, r // 3)), x + (rng.randrange(max(1, c // 3)) if dx >= 0 else -rng.randrange(max(1, c // 3)))
+        y0, x0 = y, x
+        while 0 <= y < r and 0 <= x < c:
+            if rng.random() < 0.8:
+                A[y, x] = True
+            y, x = y + dy, x + dx
+        A[y0, x0] = True
+        if kind == 'line+1':
+            A[rp()] = True
+        if kind == 'parallel':
+            sy, sx = rng.choice([(0, 1), (1, 0), (0, 2), (2, 0)])
+            B = np.zeros_like(A)
+            B[sy:, sx:] = A[:r - sy, :c - sx]
+            A |= B
+    elif kind in ('three', 'four'):
+        for _ in range(3 if kind == 'three' else 4):
+            A[rp()] = True
+    else:
+        A[0, 0] = A[0, -1] = A[-1, 0] = A[-1, -1] = True
+    return A, 'degenerate:' + kind
+
+
 def _rand_image(rng):
     style = rng.random()
+    if style >= 0.06 and style < 0.14:
+        return _degenerate(rng)
     if style < 0.06:
         return _lattice_polygon(rng), 'lattice-polygon'
     r = rng.choice([1, 2, 3, 5, 8, 13, 21, 40]) if rng.random() < 0.4 else rng.randint(1, 40)
@@ -371,6 +431,8 @@ def cases(rng, tier):
         c = dict(shape=list(A.shape), data=[int(v) for v in A.ravel().tolist()], dtype=dtype, layout=layout, gen=g)
         if rng.random() < 0.12:
             c['maxiter'] = rng.choice([0, 1, 2, 3, -1, -5])     # partial thinning: subset / components / model still apply
+        if rng.random() < 0.3:
+            c['emode'] = rng.choice(sorted(EMODES))             # euler's `mode` argument, every border mode
         out.append(c)
     # size thresholds: a side crossing 2^8, 2^10, 2^11 (a block-wise / tiled rewrite of euler, thin or the hull scan is exact on
     # every small image), objects on the rows and columns next to those boundaries
@@ -410,6 +472,8 @@ def shrink(case):
         yield dict(case, layout='C')
     if case.get('maxiter') is not None:
         yield {k: v for k, v in case.items() if k != 'maxiter'}
+    if case.get('emode') is not None:
+        yield {k: v for k, v in case.items() if k != 'emode'}
     if case.get('dtype', 'bool') not in ('bool', 'uint8'):
         yield dict(case, dtype='uint8')
     for i, v in enumerate(data):
